@@ -549,6 +549,13 @@ class Executor(object):
                 val = ft.make('%s.%s' % (getattr(cls, '__name__', cls), name), st, self.bv)
                 st.heap[key] = val
                 return [Outcome('normal', st, val)]
+            if v.oid in st.fresh_objs and inspect.isclass(cls) and name != '__getattr__':
+                # an object created on this path has all its instance attributes on the heap: a failed normal
+                # lookup falls back to the class's __getattr__ (Python semantics), executed from the real source
+                for k in cls.__mro__:
+                    ga = k.__dict__.get('__getattr__')
+                    if isinstance(ga, types.FunctionType):
+                        return self.call_function(ga, [v, VStr(name)], {}, st, fr, node, owner=k)
             if v.oid in st.fresh_objs or self.opts.get('strict_attrs'):
                 return [self.raise_(st, AttributeError, 'attribute %s line %d' % (name, line))]
             val = VOpaque(z3.Const(fresh_name('fld_%s' % name), smt.Val))
@@ -752,16 +759,22 @@ class Executor(object):
                 argnodes.append(a)
             kwnames = []
             for k in node.keywords:
-                if k.arg is None:
-                    raise Unsupported('**kwargs call')
-                kwnames.append(k.arg)
+                kwnames.append(k.arg)               # None: f(**mapping)
                 argnodes.append(k.value)
             acc, raises = self.eval_seq(argnodes, o.st, fr)
             out.extend(raises)
             for s, vals in acc:
                 npos = len(node.args)
                 args = vals[:npos]
-                kwargs = dict(zip(kwnames, vals[npos:]))
+                kwargs = {}
+                for kn, kv in zip(kwnames, vals[npos:]):
+                    if kn is not None:
+                        kwargs[kn] = kv
+                    elif isinstance(kv, VDict) and all(isinstance(x, str) for x in kv.d):
+                        for x, y in kv.d.items():   # statically known mapping (values are symbolic values)
+                            kwargs[x] = y if isinstance(y, V) else lift_py(y)
+                    else:
+                        raise Unsupported('**kwargs call with a non-static mapping')
                 if starred:
                     args = self._expand_starred(args, starred, s, o.val)
                 out.extend(self.call(o.val, args, kwargs, s, fr, node))
@@ -1005,17 +1018,25 @@ class Executor(object):
 
     def bind_params(self, fs, args, kwargs, st, fr):
         a = fs.node.args
-        if a.vararg or a.kwarg:
-            raise Unsupported('*args/**kwargs in %s' % fs.qual)
         names = [x.arg for x in a.posonlyargs + a.args]
         defaults = a.defaults
         env = {}
         if len(args) > len(names):
-            raise Unsupported('too many args for %s' % fs.qual)
+            if not a.vararg:
+                raise Unsupported('too many args for %s' % fs.qual)
+        if a.vararg:
+            env[a.vararg.arg] = VTuple(list(args[len(names):]))       # def f(.., *args): surplus positionals
         for n, v in zip(names, args):
             env[n] = v
+        known = set(names) | set(k.arg for k in a.kwonlyargs)
+        extra_kw = {}
         for k, v in kwargs.items():
-            env[k] = v
+            if k in known or not a.kwarg:
+                env[k] = v
+            else:
+                extra_kw[k] = v
+        if a.kwarg:
+            env[a.kwarg.arg] = VDict(extra_kw)                        # def f(.., **kwargs): surplus keywords
         first_default = len(names) - len(defaults)
         dfr = Frame(fs)
         for i, n in enumerate(names):
@@ -1596,6 +1617,13 @@ class Executor(object):
                         res.append(o)
                         continue
                     t, f = self.split(o.st, truthy(o.val))
+                    if t is not None and self.opts.get('loop_exit_ms'):
+                        # scenario option: decide 'the loop is over' with a full proof attempt instead of the quick
+                        # feasibility pre-check (unrolling a loop over a statically bounded structure)
+                        v_, _, _ = smt.solve(o.st.pc, z3.Not(truthy(o.val)), timeout_ms=self.opts['loop_exit_ms'],
+                                             want_model=False, use_cvc5=False)
+                        if v_ == smt.Verdict.PROVED:
+                            t = None
                     if f is not None:
                         res.extend(self.exec_block(node.orelse, f, fr) if node.orelse else [Outcome('normal', f)])
                     if t is not None:
@@ -1671,6 +1699,8 @@ class Executor(object):
         c = fr.contract
         if c is None:
             return None
+        if fr.fs is not None and fr.fs.qual in self.opts.get('no_invariant', ()):
+            return None          # scenario option: unroll this function's loops (statically bounded inputs)
         return c.loop_spec(fr.fs.qual, ordinal, node)
 
     def _cut_loop(self, node, st, fr, inv, ordinal, kind, iterable=None):
@@ -1708,6 +1738,12 @@ class Executor(object):
             if vt.kind == 'tuples' and isinstance(cur, VList):
                 from .values import VTupSeq
                 st.env[vn] = VTupSeq.from_items(cur.items, vt.kw['arity'])
+        for (on, fld), ft in (getattr(inv, 'field_types', None) or {}).items():
+            o_ = st.env.get(on)
+            cur = st.heap.get((o_.oid, fld)) if isinstance(o_, VObj) else None
+            if ft == 'abslist' and isinstance(cur, VList):
+                from .values import VAbsList
+                st.heap[(o_.oid, fld)] = VAbsList(z3.IntVal(len(cur.items)))   # elements forgotten (sound abstraction)
         entry = st.fork()
         ns_entry = NS(self, entry, fr, old=st)
 
@@ -1748,6 +1784,8 @@ class Executor(object):
                     v = s.heap[(o.oid, field)]
                     if isinstance(v, VSeq) and v.elem == 'byte':
                         s.assume(isb(v.t))
+                    if type(v).__name__ == 'VAbsList':
+                        s.assume(v.n >= 0)
         it_st = st.fork()
         havoc(it_st)
         if kind == 'for':
